@@ -977,10 +977,13 @@ func (c *codegen) Visit(node ast.Node) ast.Visitor {
 		c.currentSwitch = label
 		c.pushStackLabel(label, 1)
 
-		last := len(n.Body.List) - 1
-		for i := range last {
-			if n.Body.List[i].(*ast.CaseClause).List == nil { // early default
-				n.Body.List[i], n.Body.List[last] = n.Body.List[last], n.Body.List[i]
+		// A default clause that is not the last one stays where it is written
+		// (fallthrough goes to the textually next clause): it is jumped over
+		// while the cases are tried and entered from the end of the switch.
+		earlyDefault := -1
+		for i := range len(n.Body.List) - 1 {
+			if n.Body.List[i].(*ast.CaseClause).List == nil {
+				earlyDefault = i
 				break
 			}
 		}
@@ -1005,6 +1008,8 @@ func (c *codegen) Visit(node ast.Node) ast.Visitor {
 						emit.Jmp(c.prog.BinWriter, opcode.JMPIFL, lStart)
 					}
 				}
+			} else if i == earlyDefault {
+				emit.Jmp(c.prog.BinWriter, opcode.JMPL, lEnd)
 			}
 
 			c.scope.vars.newScope()
@@ -1022,6 +1027,9 @@ func (c *codegen) Visit(node ast.Node) ast.Visitor {
 			c.setLabel(lEnd)
 
 			c.scope.vars.dropScope()
+		}
+		if earlyDefault >= 0 {
+			emit.Jmp(c.prog.BinWriter, opcode.JMPL, startLabels[earlyDefault])
 		}
 
 		c.setLabel(switchEnd)
